@@ -3,7 +3,16 @@ import vlib, sim_common as sc
 
 COQ_TARGETS = ["Props/Properties_C20.vo"]
 META = dict(
-    text="proof (partial): Coq theorems over a model of priv_add_local_candidate_pruned (tied to agent/discovery.c by differential execution evaluated inside Coq): "
+    text="proof (partial): (a) the discovery list and its tick (agent/discovery.c priv_discovery_tick_unlocked) with the answer handlers of agent/conncheck.c "
+         "(success, error classes, 401/438 re-authentication bounded by NICE_DISCOVERY_MAX_AUTH_RETRIES, 300 redirections bounded by "
+         "NICE_DISCOVERY_MAX_REDIRECTS, stale / duplicate / garbage answers) are modelled in Coq with the STUN timer of C19; the server is an adversary "
+         "choosing every answer and every silence. Proved for EVERY number of items and EVERY adversary: gathering terminates — once the tick has been "
+         "driven for longer than n*((A+1)*round + MR*n*TX) (22.8 s for one item with the defaults) the list is freed and completion has been announced "
+         "exactly once (explicit decreasing measure); completion is never announced before every item is done and at most once per run; a candidate only "
+         "comes from a success answer matching the item's current transaction, at most one per item; a done item is final. The bound is tight in MR "
+         "(without the limit no bound exists: that was genuine defect 1878027, found by this proof). Tie: the modelled statements and constants are checked "
+         "verbatim against the sources on every run and a harness (disc_h.c includes discovery.c, real agent, scripted socket and clock) replays 400 "
+         "adversarial scripts step by step against the model inside Coq. (b) Coq theorems over a model of priv_add_local_candidate_pruned (tied to agent/discovery.c by differential execution evaluated inside Coq): "
          "for EVERY sequence of discovery results the local candidate list holds no candidate redundant with an earlier one, none twice, none that was not supplied; "
          "a refusal always has an earlier redundant candidate as its reason; host candidates for new addresses are always kept; an unanswered transaction "
          "waits exactly 4 x RTO (from the C19 timer theorems). Completion 'exactly once and in bounded time whatever the servers do' is NOT proved: a real "
@@ -11,7 +20,7 @@ META = dict(
          "error class, 401 then success, endless 401/438, alternate-server chains, NAT-mapped answers; 0..1 STUN x 0..3 TURN servers, 1..2 addresses, 1..2 "
          "components, loss on the server paths, gathering again after a restart) with completion count, time bound and the confirmed candidate set as oracles.",
     note="trusted: Coq kernel, harnesses, sim.c scripted servers, python oracles. Partial: completion/time bound by counterexample search.",
-    technique="Coq proof of redundancy-elimination invariants over all result sequences + differential tie + deterministic simulation against scripted servers")
+    technique="Coq proofs of termination of the discovery tick against an adversarial server (explicit bound, decreasing measure) and of redundancy-elimination invariants + source-text and differential ties evaluated inside Coq + deterministic simulation against scripted servers")
 FINISH = dict(level="proof", trusted=["coq/Agent/GatherModel.v tied to agent/discovery.c (harness/gather_h.c, compared inside Coq)", "harness/sim.c scripted servers", "python oracles"],
               rule="server behaviours per props/sim_common.py STUN_MODES / TURN_MODES; non-trivial = gathering-done announced",
               assumptions=["UDP only (ICE-TCP, UPnP off)", "one STUN server (libnice supports one), TURN over UDP", "IPv4"])
@@ -74,9 +83,20 @@ def oracle(line, evs, meta):
     return sc.oracle_gather(evs, meta)
 
 
+def pregen():
+    """regenerate coq/Gen/Discovery.v (constants of the discovery tick) and check the modelled statements of discovery.c / conncheck.c"""
+    import c20_discovery
+    return c20_discovery.discovery_shape()
+
+
 def run(chk):
+    gi, err = pregen()
+    if gi is None:
+        chk.broken_obligation("translator/table-extractor", err)
     chk.prove(["Props/Properties_C20.v"])
     gather_tie(chk)
+    import c20_discovery
+    c20_discovery.discovery_tie(chk)
     n = 1500 if chk.tier == "quick" else 60000
     cases = [sc.gen_gather(chk.rng, i) for i in range(n)]
     sc.run_sim(chk, cases, oracle, "sim-C20", token="gathering-done")
